@@ -23,7 +23,7 @@ LEVEL_RULE = (
 EXHAUSTIVE_SUBDOMAINS = []
 ASSUMPTIONS = ["pulse samples carry the amplitude plus a small share of the noise; low samples carry noise only", "regime R2 (noise between 0.2 x and 0.316 x the weakest pulse, i.e. 10-13.5 dB SNR) was the recorded finding eof-threshold-below-noise until fix b07124f; it is now judged as strictly as R1",
                "R1 = noise peak below the demodulator's own end-of-frame threshold (0.2 x strongest pulse of the frame)"]
-REQUIRED = ["r1_buffers", "r2_buffers", "second_buffer", "min_gap_after_short", "min_gap_after_long", "df17", "df20", "df21", "df4", "df5", "df11", "offset_even", "offset_odd",
+REQUIRED = ["r1_buffers", "r2_buffers", "second_buffer", "second_buffer_short_tail", "min_gap_after_short", "min_gap_after_long", "df17", "df20", "df21", "df4", "df5", "df11", "offset_even", "offset_odd",
             "corrupted_df17_rejected", "pure_noise", "multi_frame"]
 
 
@@ -98,6 +98,8 @@ def m_buffer(ctx, case):
         res2 = call(r._process_buffer)
         ctx.ev()
         ctx.hit("second_buffer")
+        if case.get("short_tail"):
+            ctx.hit("second_buffer_short_tail")
         if res2[0] != "ok" or not isinstance(res2[1], list):
             res = res2
         else:
@@ -210,6 +212,12 @@ def mkcase(rng, regime, nframes=None, force_df=None):
         for f in c["second"]:
             hx, _n = rand_frame(rng, int(f["hex"][:2], 16) >> 3)
             f["hex"], f["valid"] = hx, True
+        if rng.random() < 0.6:
+            # the last frame of the first buffer is complete but ends only a few samples before the buffer does: it must
+            # come out exactly once over the two calls (neither lost nor emitted again from the left-over samples)
+            c["frames"][-1]["gap"] = rng.choice((0, 1, 2, 3, 40, 112, 113, 114, 200))
+            c["tail"] = 0
+            c["short_tail"] = True
     return c
 
 
